@@ -1,5 +1,6 @@
 import math
-from .types import Quantity, is_number, get_external_type_name, Array, Combinatoric
+from .types import (Quantity, is_number, get_external_type_name, Array,
+    Combinatoric, simplify_type)
 from .functions import dispatch, resolve_combinatoric
 from .units import lookup_unit, QSPACE, InvalidPrefixError
 from .probability import ComparisonOp
@@ -98,7 +99,7 @@ def make_quantity(magnitude, unit_signature):
     qv, multiple, offset = compose_units(unit_signature)
     if isinstance(magnitude, Combinatoric):
         magnitude = resolve_combinatoric(magnitude)
-    return Quantity(multiple*magnitude + offset, qv)
+    return simplify_type(Quantity(multiple*magnitude + offset, qv))
 
 def convert_quantity(quantity, unit_sig):
     qv, multiple, offset = compose_units(unit_sig)
